@@ -469,27 +469,30 @@ pub fn eval_print<W>(program: &Program, state: &mut State, output: &mut W, index
     let format = program_object.as_str()?;
     let mut argument_pointers = state.operand_stack.pop_reverse_sequence(arguments.to_usize())?;
 
+    // Format into a local buffer: a print that turns out to be invalid must not write anything.
+    let mut buffer = String::new();
     let mut escaped = false;
     for character in format.chars(){
         match (escaped, character) {
-            (true,  '~' ) => { output.write_char('~')?;  escaped = false; },
-            (true,  '\\') => { output.write_char('\\')?; escaped = false; },
-            (true,  '"' ) => { output.write_char('"')?;  escaped = false; },
-            (true,  'n' ) => { output.write_char('\n')?; escaped = false; },
-            (true,  't' ) => { output.write_char('\t')?; escaped = false; },
-            (true,  'r' ) => { output.write_char('\r')?; escaped = false; },
+            (true,  '~' ) => { buffer.write_char('~')?;  escaped = false; },
+            (true,  '\\') => { buffer.write_char('\\')?; escaped = false; },
+            (true,  '"' ) => { buffer.write_char('"')?;  escaped = false; },
+            (true,  'n' ) => { buffer.write_char('\n')?; escaped = false; },
+            (true,  't' ) => { buffer.write_char('\t')?; escaped = false; },
+            (true,  'r' ) => { buffer.write_char('\r')?; escaped = false; },
             (true,  chr  ) => { bail!("Unknown control sequence \\{}", chr) },
             (false, '\\') => {                           escaped = true;  },
             (_,    '~'  ) => {
                 let argument = argument_pointers.pop()
                     .with_context(|| "Not enough arguments for format `{}`")?;
-                output.write_str(argument.evaluate_as_string(&state.heap)?.as_str())?
+                buffer.write_str(argument.evaluate_as_string(&state.heap)?.as_str())?
             },
-            (_,    chr ) => { output.write_char(chr)?                       },
+            (_,    chr ) => { buffer.write_char(chr)?                       },
         }
     }
     bail_if!(!argument_pointers.is_empty(),
              "{} unused arguments for format `{}`", argument_pointers.len(), format);
+    output.write_str(buffer.as_str())?;
 
     state.operand_stack.push(Pointer::Null);
     state.instruction_pointer.bump(program);
